@@ -316,6 +316,4 @@ def run(ctx):
 
 
 def replay(rep):
-    import json
-    print(json.dumps(rep, indent=1, default=str)[:6000])
-    return 0
+    return ampkit.replay_failing_input(rep)
